@@ -124,6 +124,20 @@ def run(rep, tier, seed):
             if obs != exp and not err:
                 bad = [k for k in exp if obs[k] != exp[k]]
                 err = '%s argument: listing %s = %r, expected %r' % (what, bad[0], obs[bad[0]], exp[bad[0]])
+        if not err and tree[0] != 0:
+            # the same licenses in another order, asked right afterwards on the same Licensing
+            rev = [tree[0], list(reversed(tree[1]))]
+            rexp = expected(T, rev)
+            robs = observe(L, build_expr(rev))
+            if robs != rexp:
+                bad = [k for k in rexp if robs[k] != rexp[k]]
+                err = 'reversed operands right after the original: listing %s = %r, expected %r' % (bad[0], robs[bad[0]], rexp[bad[0]])
+            rep2 = [tree[0], tree[1] + [tree[1][0]]]
+            r2exp = expected(T, rep2)
+            r2obs = observe(L, build_expr(rep2))
+            if not err and r2obs != r2exp:
+                bad = [k for k in r2exp if r2obs[k] != r2exp[k]]
+                err = 'repeated operand right after the original: listing %s = %r, expected %r' % (bad[0], r2obs[bad[0]], r2exp[bad[0]])
         if err:
             rep.violations.append({'key': 'listing', 'kind': 'text', 'table': T, 'text': text, 'tree': tree, 'what': err})
             continue
